@@ -89,20 +89,52 @@ def build_request(case, rnd):
         n = rnd.choice([LIMIT + 1, LIMIT * 3])
         content = bytes(rnd.getrandbits(8) for _ in range(n))
     line = "titan://h.ex%s;size=%d;mime=text/plain" % (path, len(content))
-    tok = {"notneeded": rnd.choice([None, "whatever"]), "right": "GOODTOKEN", "wrong": "BADTOKEN", "missing": None}[case["token"]]
-    if tok:
+    tok = {"notneeded": rnd.choice([None, "whatever"]), "right": "GOODTOKEN", "wrong": rnd.choice(["BADTOKEN", "goodtoken", "GOODTOKEN%20", "guess"]),
+           "missing": rnd.choice([None, None, ""])}[case["token"]]
+    if tok is not None:
         line += ";token=" + tok
-        if case["token"] == "wrong" and rnd.random() < 0.3:
-            line += ";token=GOODTOKEN" if False else ""
     return line.encode() + b"\r\n", content
 
 
-def make_handler(case, up):
-    return FileUploadHandler(
-        upload_dir=up, max_size=LIMIT,
-        allowed_types={"nolist": None, "allowed": ["text/plain", "text/gemini"], "refused": ["text/gemini"]}[case["mime"]],
-        auth_tokens=None if case["token"] == "notneeded" else {"GOODTOKEN"},
-        enable_delete=case["deleteOn"])
+def make_handler(case, up, rnd=None):
+    """The upload handler for a case: built directly, or - two thirds of the time - the way a deployment builds it:
+    ServerConfig (keyword form or a TOML file) -> get_upload_handler(), with the token list as an operator may write it
+    (blank entries beside or instead of the real token: blank entries authorise nobody)."""
+    types = {"nolist": None, "allowed": ["text/plain", "text/gemini"], "refused": ["text/gemini"]}[case["mime"]]
+    if case["token"] == "notneeded":
+        tokens = None
+    elif case["token"] == "right":
+        tokens = rnd.choice([["GOODTOKEN"], ["", "GOODTOKEN"], ["GOODTOKEN", "  "]]) if rnd else ["GOODTOKEN"]
+    else:
+        tokens = rnd.choice([["GOODTOKEN"], ["GOODTOKEN"], ["", "GOODTOKEN"], [""], ["", "  "], [" "]]) if rnd else ["GOODTOKEN"]
+    how = rnd.choice(["direct", "config", "toml"]) if rnd else "direct"
+    if how == "direct":
+        return FileUploadHandler(upload_dir=up, max_size=LIMIT, allowed_types=types,
+                                 auth_tokens=None if tokens is None else set(tokens), enable_delete=case["deleteOn"])
+    from pathlib import Path
+    from nauyaca.server.config import ServerConfig
+    root = os.path.dirname(up)
+    if how == "config":
+        cfg = ServerConfig(document_root=Path(root), enable_titan=True, titan_upload_dir=Path(up), titan_max_upload_size=LIMIT,
+                           titan_allowed_mime_types=types, titan_auth_tokens=tokens, titan_enable_delete=case["deleteOn"])
+    else:
+        lines = ["[server]", 'document_root = "%s"' % root, "", "[titan]", "enabled = true", 'upload_dir = "%s"' % up,
+                 "max_upload_size = %d" % LIMIT, "enable_delete = %s" % ("true" if case["deleteOn"] else "false")]
+        if types is not None:
+            lines.append("allowed_mime_types = %s" % json.dumps(types))
+        if tokens is not None:
+            lines.append("auth_tokens = %s" % json.dumps(tokens))
+        fd, path = tempfile.mkstemp(prefix="vf-up-cfg-", suffix=".toml")
+        with os.fdopen(fd, "w") as f:
+            f.write("\n".join(lines) + "\n")
+        try:
+            cfg = ServerConfig.from_toml(Path(path))
+        finally:
+            os.unlink(path)
+    h = cfg.get_upload_handler()
+    if h is None:
+        raise tlc.TLCError("ServerConfig.get_upload_handler() returned None with Titan enabled")
+    return h
 
 
 def run_protocol(handler, line, content, rnd):
@@ -144,7 +176,7 @@ def run_case(tree, case, rnd):
     line, content = build_request(case, rnd)
     before = snapshot(tree.top)
     if case["fault"] == "none":
-        handler = make_handler(case, up)
+        handler = make_handler(case, up, rnd)
         st = run_protocol(handler, line, content, rnd)
     else:
         r, w = os.pipe()
@@ -156,9 +188,9 @@ def run_case(tree, case, rnd):
                     signal.signal(signal.SIGXFSZ, signal.SIG_IGN)
                     k = rnd.choice([x for x in (0, 1, len(content) - 1) if 0 <= x < len(content)] or [0])
                     resource.setrlimit(resource.RLIMIT_FSIZE, (k, k))
-                    handler = make_handler(case, up)
+                    handler = make_handler(case, up, rnd)
                 else:
-                    handler = make_handler(case, up)
+                    handler = make_handler(case, up, rnd)
                     os.setgid(65534)
                     os.setuid(65534)
                 st = run_protocol(handler, line, content, rnd)
